@@ -26,7 +26,13 @@ def step_batch(env, td, actions):
     td = td.clone()
     td.set("action", torch.as_tensor(actions, dtype=torch.long))
     _set_bs(env, td.batch_size[0])
-    return env.step(td)["next"]
+    td = env.step(td)["next"]
+    if hasattr(env, "_update_step_state") and bool(done_vec(td).all()):
+        # FFSP skips its mask update when EVERY row of the batch is finished (the decoding loop stops there).
+        # A finished row that still has an unfinished batch-mate gets its mask from _update_step_state; the
+        # harness applies the same function so that a finished row's state is the one it has in a running batch.
+        td = env._update_step_state(td)
+    return td
 
 
 def reset_one(env, td0):
@@ -118,9 +124,7 @@ def run_solo(env, td0, actions, record_masks=True):
     masks = [td["action_mask"].reshape(-1).tolist()]
     dones = [bool(done_vec(td)[0])]
     for a in actions:
-        td.set("action", torch.tensor([a], dtype=torch.long))
-        _set_bs(env, 1)
-        td = env.step(td)["next"]
+        td = step_batch(env, td, [a])
         masks.append(td["action_mask"].reshape(-1).tolist())
         dones.append(bool(done_vec(td)[0]))
     return td, masks, dones
